@@ -188,6 +188,8 @@ RES_MODELS = {
 PURE_KEYS = set(MODELS) | {
     "GenericArray<$0,$1>::as_slice", "GenericArray<$0,$1>::as_mut_slice",
     "<GenericArray<$0,$1> as core::ops::Deref>::deref", "<GenericArray<$0,$1> as core::ops::DerefMut>::deref_mut",
+    "<GenericArray<$0,$1> as core::convert::AsRef<[$0]>>::as_ref", "<GenericArray<$0,$1> as core::convert::AsMut<[$0]>>::as_mut",
+    "<GenericArray<$0,$1> as core::borrow::Borrow<[$0]>>::borrow", "<GenericArray<$0,$1> as core::borrow::BorrowMut<[$0]>>::borrow_mut",
 }
 
 
